@@ -41,6 +41,75 @@ def key_abs(k):
     return None
 
 
+def _ts(t):
+    import calendar
+    if t is None:
+        return {'forever': True, 'secs': []}
+    return {'forever': False, 'secs': digits(calendar.timegm(t.utctimetuple()))}
+
+
+def _opts(vec):
+    out = []
+    for x in vec:
+        n = type(x).__name__
+        if n == 'SshCertExtensionUnparsed':
+            out.append({'name': list(x.extension_name.encode('ascii')), 'k': 'raw', 'v': list(x.extension_data)})
+        elif n == 'SshCertExtensionForceCommand':
+            out.append({'name': list(b'force-command'), 'k': 'string', 'v': list(x.command.encode('ascii'))})
+        elif n == 'SshCertExtensionSourceAddress':
+            out.append({'name': list(b'source-address'), 'k': 'string', 'v': list(','.join(str(a) for a in x.addresses).encode('ascii'))})
+        else:
+            out.append({'name': list(x.extension_name.value.code.encode('ascii')), 'k': 'flag', 'v': []})
+    return out
+
+
+_CERT_KEYS = {'RSA': ('rsa_key', 'SshHostKeyRSA'), 'DSS': ('dss_key', 'SshHostKeyDSS'), 'ECDSA': ('ecdsa_key', 'SshHostKeyECDSA'),
+              'EDDSA': ('eddsa_key', 'SshHostKeyEDDSA')}
+
+
+def cert_abs(c):
+    """OpenSSH certificate -> ('cert_v01' | 'cert_v00', field values)"""
+    n = type(c).__name__
+    if not n.startswith('SshHostCertificateV0'):
+        return None
+    v01 = n.startswith('SshHostCertificateV01')
+    fam = n[len('SshHostCertificateV01'):]
+    if fam not in _CERT_KEYS:
+        return None
+    kind, plain = _CERT_KEYS[fam]
+    alg = c.host_key_algorithm.value.code
+    p = c.public_key.params
+    if kind == 'rsa_key':
+        key = {'e': digits(p.public_exponent), 'n': digits(p.modulus)}
+    elif kind == 'dss_key':
+        key = {'p': digits(p.prime), 'q': digits(p.order), 'g': digits(p.generator), 'y': digits(p.public_key_value)}
+    elif kind == 'ecdsa_key':
+        from cryptoparser.ssh.key import SshEllipticCurveIdentifier
+        cid = [x for x in SshEllipticCurveIdentifier if x.value.named_group == p.named_group]
+        if not cid:
+            return None
+        key = {'curve': list(cid[0].value.code.encode('ascii')), 'point': list(p.octet_bit_string)}
+    else:
+        key = {'key': list(p.key_data)}
+    family_names = {'rsa_key': ('ssh-rsa-cert', 'rsa-sha2'), 'dss_key': ('ssh-dss-cert',), 'ecdsa_key': ('ecdsa-sha2-',),
+                    'eddsa_key': ('ssh-ed25519-cert',)}[kind]
+    a = {'alg': list(alg.encode('ascii')), 'nonce': list(c.nonce), 'key_kind': kind, 'key': key,
+         'serial': digits(c.serial) if v01 else [], 'type': digits(c.certificate_type.value.code), 'key_id': list(c.key_id.encode('ascii')),
+         'principals': [list(x.value.encode('ascii')) for x in c.valid_principals],
+         'after': _ts(c.valid_after), 'before': _ts(c.valid_before),
+         'options': _opts(c.critical_options if v01 else c.constraints), 'extensions': _opts(c.extensions) if v01 else [],
+         'reserved': list(c.reserved), 'sigkey': list(bytes(c.signature_key.key_bytes)),
+         'sig_type': list(c.signature.signature_type.value.code.encode('ascii')), 'sig_data': list(c.signature.signature_data),
+         'alg_matches_key': any(alg.startswith(x) for x in family_names) and ('cert-v01' in alg) == v01}
+    try:
+        sk = key_abs(c.signature_key)
+    except Exception:  # pylint: disable=broad-except
+        sk = None
+    a['sigkey_kind'] = sk[0] if sk else 'opaque'
+    a['sigkey_abs'] = sk[1] if sk else {'alg': []}
+    return ('cert_v01' if v01 else 'cert_v00'), a
+
+
 def message_abs(o):
     n = type(o).__name__
     if n == 'SshKeyExchangeInit':
@@ -78,4 +147,6 @@ def message_abs(o):
                           'has_comment': o.comment is not None, 'comment': list((o.comment or '').encode('ascii'))}
     if n.startswith('SshHostKey'):
         return key_abs(o)
+    if n.startswith('SshHostCertificateV0'):
+        return cert_abs(o)
     return None
